@@ -5,6 +5,7 @@ mod c04;
 mod c09;
 mod c10;
 mod c12;
+mod c14;
 mod c17;
 mod c18;
 mod c19;
@@ -42,6 +43,7 @@ macro_rules! registry {
             "C10" => $mac!(c10::C10),
             "C12" => $mac!(c12::C12),
             "C13" => $mac!(pipechecks::C13),
+            "C14" => $mac!(c14::C14),
             "C17" => $mac!(c17::C17),
             "C18" => $mac!(c18::C18),
             "C19" => $mac!(c19::C19),
@@ -54,7 +56,7 @@ macro_rules! registry {
     };
 }
 
-pub const ALL_IDS: &[&str] = &["C01", "C02", "C03", "C04", "C05", "C06", "C07", "C08", "C09", "C10", "C12", "C13", "C17", "C18", "C19", "C20"];
+pub const ALL_IDS: &[&str] = &["C01", "C02", "C03", "C04", "C05", "C06", "C07", "C08", "C09", "C10", "C12", "C13", "C14", "C17", "C18", "C19", "C20"];
 
 fn arg_val(args: &[String], name: &str) -> Option<String> {
     args.iter()
